@@ -27,6 +27,8 @@ QuantityDev(d, r, dev) ==
       [] r.q = "kM"  -> KM(d, dev)
       [] r.q = "kA"  -> KA(d, r.flow, r.beta, r.gamma, dev)
       [] r.q = "cA"  -> CA(d, r.aeromu)
+      [] r.q = "kAmach" -> LET co == AeroCoeffs(r.mach, r.root, r.rho, r.V, r.ainf, IF d.model = "cpanel" THEN d.r ELSE RZero)
+                           IN KA(d, r.flow, co.beta, IF r.flow = "x" THEN co.gamma ELSE RZero, dev)
       (* fields: one tuple of <<value, scale>> per point *)
       [] r.q = "uvw"    -> Fn([k \in 1..Len(r.pts) |-> Uvw(d, r.c, r.pts[k][1], r.pts[k][2])])
       [] r.q = "strain" -> Fn([k \in 1..Len(r.pts) |-> StrainAt(d, r.c, r.pts[k][1], r.pts[k][2], r.NL, dev)])
@@ -36,7 +38,7 @@ QuantityDev(d, r, dev) ==
       [] r.q = "fint"   -> Fint(d, r.c)
       [] r.q = "kT"     -> KT(d, r.c)
       [] r.q = "kGc"    -> KGState(d, r.c, r.NL)
-IsMatrixReq(r) == r.q \in {"k0", "kG0", "kM", "kA", "cA", "kT", "kGc"}
+IsMatrixReq(r) == r.q \in {"k0", "kG0", "kM", "kA", "cA", "kAmach", "kT", "kGc"}
 Placed(M, r) == IF r.size = 0 THEN M
                 ELSE IF r.q \in {"fext", "fint"} THEN PlaceVec(M, r.size, r.col0) ELSE Place(M, r.size, r.row0, r.col0)
 Quantity(d, r) == Placed(QuantityDev(d, r, Deviations), r)
@@ -63,7 +65,8 @@ SymmetricOut == (Evaluated /\ req.q \in {"k0", "kG0", "kM", "cA"}) => MSym(OutVa
 (* the scale dominates the value *)
 ScaleDominatesOut == Evaluated => \A i \in 1..N_, j \in 1..N_ : RLe(RAbs(out[i][j][1]), out[i][j][2])
 (* geometric stiffness and aerodynamic matrices touch out-of-plane amplitudes only *)
-OnlyW == (Evaluated /\ req.q \in {"kG0", "kA", "cA"}) =>
+MachRootOk == (Evaluated /\ req.q = "kAmach") => RMul(req.root, req.root) = RSub(RMul(req.mach, req.mach), ROne)
+OnlyW == (Evaluated /\ req.q \in {"kG0", "kA", "cA", "kAmach"}) =>
             \A i \in 1..N_, j \in 1..N_ :
                 ~(InBlock(i) /\ InBlock(j) /\ IsW(def, Loc(i)) /\ IsW(def, Loc(j))) => out[i][j] = PairZero
 (* nothing outside the placement block *)
